@@ -46,7 +46,7 @@ fn projection(w: &World, rec: &OpRecord) -> Vec<String> {
             }
             Ev::NbRxRequest { rf, ok, .. } => v.push(format!("RxRequest {} ok={ok}", rf.short())),
             Ev::NbCancelRx { ok, .. } => v.push(format!("CancelRx ok={ok}")),
-            Ev::NbEvent { code: RespCode::TimeoutRequest(t), .. } => v.push(format!("TimeoutRequest(+{})", *t as i64 - tx_done.unwrap_or(0) as i64)),
+            Ev::NbEvent { code: RespCode::TimeoutRequest(t), .. } => v.push(format!("TimeoutRequest(+{})", t.wrapping_sub(tx_done.unwrap_or(0) as u32) as i32)),
             _ => {}
         }
     }
